@@ -132,6 +132,7 @@ def make_sessions(ctx, n):
         w = ctx.rng.choice([[1, 1, 1], [1, 1, 1], [1, 2, 3], [3, 1, 2], [2, 5, 3], [3, 5, 7], [1, 1, 3]])
         metric = Levenshtein() if w == [1, 1, 1] and sid % 2 else WeightedLevenshtein(*w)
         ev = dict(op=kind, raised=False, w=w)
+        strs = None
         try:
             if kind == "Closed":
                 fam = ctx.rng.choice(["AnBm", "AnAm", "AnBmToBm"])
@@ -152,16 +153,71 @@ def make_sessions(ctx, n):
                     Y = [nc.mutate(ctx.rng, ctx.rng.choice(X), ctx.rng.randint(0, 6), letters) for _ in range(ctx.rng.randint(1, 7))]      # few x many and many x few
                     D = np.asarray(metric.calc_cdist_matrix(X, Y)) if sid % 8 else prs.cdist(X, Y, metric=scaled_metric, dtype=np.int64, w=tuple(w))
                     ev.update(X=[nc.enc(x, amap) for x in X], Y=[nc.enc(y, amap) for y in Y], D=[[int(v) for v in row] for row in D.tolist()])
+                    strs = dict(X=X, Y=Y)
                 else:
                     v = np.asarray(metric.calc_pdist_vector(X)) if sid % 8 != 1 else prs.pdist(X, metric=scaled_metric, dtype=np.int64, w=tuple(w))
                     ev.update(X=[nc.enc(x, amap) for x in X], vec=[int(t) for t in v.tolist()])
+                    strs = dict(X=X)
         except Exception as e:     # noqa: BLE001
             ev.update(raised=True, exc=f"{type(e).__name__}: {e}"[:200], X=[], Y=[], D=[], vec=[], fam="AnAm", n=0, m=0, d=0)
-        out.append(dict(sid=sid, events=[ev]))
+        out.append(dict(sid=sid, events=[ev], strs=strs))
     return out
 
 
+def lifted_big(ctx, s, r):
+    """large collections made of copies of an ACCEPTED session's strings: the accepted distances, lifted"""
+    from pyrepseq.metric import Levenshtein, WeightedLevenshtein
+    import pyrepseq as prs
+    from .. import lifted as lf
+    ev, strs = s["events"][0], s["strs"]
+    w = ev["w"]
+    metric = Levenshtein() if w == [1, 1, 1] and r % 2 else WeightedLevenshtein(*w)
+    X = strs["X"]
+    rp = dict(kind="lifted", session={k: v for k, v in s.items()}, r=r)
+    if ev["op"] == "Matrix":
+        Y = strs["Y"]
+        bx, by = [(1100, 90), (70, 1300), (1030, 1030)][r % 3]
+        ix, iy = lf.index_map(ctx.rng, len(X), bx), lf.index_map(ctx.rng, len(Y), by)
+        want = lf.lift_matrix(ev["D"], ix, iy)
+        desc = f"cdist of {bx} x {by} copies of {X} / {Y}, weights {w}"
+        ctx.case(dict(kind="lifted", call=desc), nontrivial=True)
+        calls = [("calc_cdist_matrix", lambda: metric.calc_cdist_matrix([X[i] for i in ix], [Y[j] for j in iy]))]
+        if w == [1, 1, 1]:
+            calls.append(("cdist/default", lambda: prs.cdist(np.array([X[i] for i in ix]), [Y[j] for j in iy], dtype=np.int64)))
+        for name, fn in calls:
+            try:
+                got = np.asarray(fn(), dtype=float)
+            except Exception as e:      # noqa: BLE001
+                ctx.violation(f"{name}/large-input/raised", f"{name}: {desc} raised {type(e).__name__}: {e}"[:400], rp)
+                continue
+            if got.shape != want.shape or not np.array_equal(got, want):
+                bad = np.argwhere(got != want)[:1].tolist() if got.shape == want.shape else "shape"
+                ctx.violation(f"{name}/large-input/entry_wrong", f"{name}: {desc}: differs from the lifted accepted matrix at {bad}"[:400], rp)
+    else:
+        big = (1100, 1300, 2050)[r % 3]
+        ix = lf.index_map(ctx.rng, len(X), big)
+        want = lf.lift_condensed(lf.square_from_condensed(ev["vec"], len(X)), ix)
+        desc = f"pdist of {big} copies of {X}, weights {w}"
+        ctx.case(dict(kind="lifted", call=desc), nontrivial=True)
+        calls = [("calc_pdist_vector", lambda: metric.calc_pdist_vector([X[i] for i in ix]))]
+        if w == [1, 1, 1]:
+            calls.append(("pdist/default", lambda: prs.pdist([X[i] for i in ix], dtype=np.int64)))
+        for name, fn in calls:
+            try:
+                got = np.asarray(fn(), dtype=float)
+            except Exception as e:      # noqa: BLE001
+                ctx.violation(f"{name}/large-input/raised", f"{name}: {desc} raised {type(e).__name__}: {e}"[:400], rp)
+                continue
+            if got.shape != want.shape or not np.array_equal(got, want):
+                ctx.violation(f"{name}/large-input/layout_or_entry_wrong", f"{name}: {desc}: differs from the lifted accepted vector"[:400], rp)
+
+
 TRACE_CONSTS = "  Letters = {0}\n  MaxLen = 0\n  MaxM = 1\n  MaxMB = 1\n  Weights = {1}\n  Kinds = {\"cdist\"}\n  Mutations = {}"
+
+
+def _replay_item(ctx, i, item):
+    replay_doc(ctx, item[1], item[0], item[2])
+    ctx.traces += 1
 
 
 def run(ctx):
@@ -173,20 +229,30 @@ def run(ctx):
                 "(DP in TLC) and strings up to 400 letters (closed forms) are validated by TraceMetrics.tla. Non-trivial = asymmetric weights.")
     ctx.assumptions = ["long strings (<= 400) only through the closed-form families validated against the DP for n, m <= 5"]
     n = 0
-    for name, text in model_runs(ctx.quick):
-        res = run_cfg(ctx, name, text)
-        for doc in ctx.sample([d for d in res.printed if "kind" in d], 50000):
-            if "kind" in doc:
-                n += 1
-                replay_doc(ctx, doc, n, ("AC", "YW", "xy")[n % 3] if len(text.split("Letters = {")[1].split("}")[0].split(",")) == 2 else "ACD")
-                ctx.traces += 1
+    runs = model_runs(ctx.quick)
+    results = ctx.mc_batch("MCMetrics", [(name, text, None) for name, text in runs], parallel=4, workers=4)
+    for name, text in runs:
+        res = results[name]
+        two = len(text.split("Letters = {")[1].split("}")[0].split(",")) == 2
+        items = []
+        for doc in ctx.sample([d for d in res.printed if "kind" in d], 120000):
+            n += 1
+            items.append((n, doc, ("AC", "YW", "xy")[n % 3] if two else "ACD"))
+        res.printed = []
+        ctx.parallel(items, _replay_item, chunk=1000)
     ctx.exhaustive = True
     sessions = make_sessions(ctx, 40 if ctx.quick else 400)
-    verd = tcm.validate(ctx, "TraceMetrics", sessions, constants=TRACE_CONSTS)
+    verd = tcm.validate(ctx, "TraceMetrics", [{k: v for k, v in s.items() if k != "strs"} for s in sessions], constants=TRACE_CONSTS)
+    nlift = {}
     for s in sessions:
         ctx.traces += 1
         ev = s["events"][0]
         ctx.case(dict(kind="session:" + ev["op"], w=ev["w"], fam=ev.get("fam"), n=ev.get("n"), m=ev.get("m"), nX=len(ev.get("X", []))), nontrivial=True)
+        # a condensed vector holds one direction only: lifting it needs a symmetric metric (insertion weight = deletion weight)
+        if (s.get("strs") and not ev["raised"] and not tcm.failures(verd[s["sid"]]) and nlift.get(ev["op"], 0) < (2 if ctx.quick else 12)
+                and (ev["op"] == "Matrix" or ev["w"][0] == ev["w"][1])):
+            nlift[ev["op"]] = nlift.get(ev["op"], 0) + 1
+            lifted_big(ctx, s, sum(nlift.values()))
         for l, op, clause in tcm.failures(verd[s["sid"]]):
             ctx.violation(f"metric/{op}/{clause}", f"metric session {ev.get('fam', '')} w={ev['w']} n={ev.get('n')} m={ev.get('m')}: {clause} {ev.get('exc', '')} got d={ev.get('d')}"[:400],
                           dict(kind="session", session=s))
@@ -202,7 +268,7 @@ def run(ctx):
             i = next(i for i in range(len(v) - 1) if v[i] != v[i + 1]); v[i], v[i + 1] = v[i + 1], v[i]
             bad.append((c, "entry_wrong"))
     if bad:
-        v2 = tcm.validate(ctx, "TraceMetrics", [b for b, _ in bad], constants=TRACE_CONSTS, count=False)
+        v2 = tcm.validate(ctx, "TraceMetrics", [{k: v for k, v in b.items() if k != "strs"} for b, _ in bad], constants=TRACE_CONSTS, count=False)
         for c, want in bad:
             ok = any(cl == want for _, _, cl in tcm.failures(v2[c["sid"]]))
             ctx.negative.append(dict(kind="corrupted_trace", corruption=want, rejected=ok))
